@@ -2,8 +2,13 @@ import RlibModel.Model.Segtree
 /-
 Executable item records for the segment-tree model (core Lean only).
 
-* the six built-in items of `rlib/segtree/src/segtree_items.rs` at `i64` (values are mathematical integers:
-  the property's domain excludes overflow, the harness keeps magnitudes far below 2^63);
+* the six built-in items of `rlib/segtree/src/segtree_items.rs` (values are mathematical integers: the property's
+  domain excludes overflow).  The items whose `Default` is a trait constant of the element type (`Min`/`MinAdd`:
+  `<T as MinMax>::MAX`, `Max`/`MaxAdd`: `<T as MinMax>::MIN`) take the element type `ty : IntTy` as a parameter, so the
+  identity the boundary searches start from is the instantiated type's real bound;
+* `guardItem`: any item run together with a "no machine overflow so far" flag per node (`Guard`: which `merge` /
+  `modify` / `push` calls stay inside the element type) — the driver uses it to decide whether a history at a
+  narrow / unsigned element type is inside the property's domain (no overflow) at all;
 * `prodItem` = `Combinator<U, V>`;
 * the two exotic lawful items of the correspondence harness (`harness/e_segtree/src/items.rs`):
   `affHash` (polynomial hash of the concatenation, affine modifiers — merge not commutative, modifiers do not
@@ -16,19 +21,20 @@ namespace Rlib.Segtree
 def i64Max : Int := 9223372036854775807
 def i64Min : Int := -9223372036854775808
 
-/-! ### `Min<i64>`, `Max<i64>`, `Sum<i64>` (modifier type `()`, default `modify`/`push` do nothing) -/
+/-! ### `Min<T>`, `Max<T>`, `Sum<T>` (modifier type `()`, default `modify`/`push` do nothing); `ty` = the element type `T` -/
 
 structure MinI where
   v : Int
   deriving Repr, DecidableEq
 
-def minItem : Item MinI Unit Int where
+/-- `Min<T>`; `Default` is `<T as MinMax>::MAX` -/
+def minItem (ty : IntTy) : Item MinI Unit Int where
   merge l r := if l.v < r.v then l else r
   -- the trait's default `update`: `*self = merge(left, right)`
   update _ l r := if l.v < r.v then l else r
   modify x _ := x
   push p l r := (p, l, r)
-  dflt := ⟨i64Max⟩
+  dflt := ⟨ty.maxVal⟩
   op a b := if a < b then a else b
   val x := x.v
   pa _ a := a
@@ -38,13 +44,14 @@ structure MaxI where
   v : Int
   deriving Repr, DecidableEq
 
-def maxItem : Item MaxI Unit Int where
+/-- `Max<T>`; `Default` is `<T as MinMax>::MIN` -/
+def maxItem (ty : IntTy) : Item MaxI Unit Int where
   merge l r := if l.v > r.v then l else r
   -- the trait's default `update`: `*self = merge(left, right)`
   update _ l r := if l.v > r.v then l else r
   modify x _ := x
   push p l r := (p, l, r)
-  dflt := ⟨i64Min⟩
+  dflt := ⟨ty.minVal⟩
   op a b := if a > b then a else b
   val x := x.v
   pa _ a := a
@@ -66,20 +73,21 @@ def sumItem : Item SumI Unit Int where
   pa _ a := a
   act _ a := a
 
-/-! ### `MinAdd<i64>`, `MaxAdd<i64>`, `SumAdd<i64>` (modifier type `i64`) -/
+/-! ### `MinAdd<T>`, `MaxAdd<T>`, `SumAdd<T>` (modifier type `T`) -/
 
 structure MinAdd where
   v : Int
   md : Int
   deriving Repr, DecidableEq
 
-def minAddItem : Item MinAdd Int Int where
+/-- `MinAdd<T>`; `Default` is `{ v: <T as MinMax>::MAX, md: 0 }` -/
+def minAddItem (ty : IntTy) : Item MinAdd Int Int where
   merge l r := ⟨if l.v < r.v then l.v else r.v, 0⟩
   -- the trait's default `update`: `*self = merge(left, right)`
   update _ l r := ⟨if l.v < r.v then l.v else r.v, 0⟩
   modify x m := ⟨x.v + m, x.md + m⟩
   push p l r := (⟨p.v, 0⟩, ⟨l.v + p.md, l.md + p.md⟩, ⟨r.v + p.md, r.md + p.md⟩)
-  dflt := ⟨i64Max, 0⟩
+  dflt := ⟨ty.maxVal, 0⟩
   op a b := if a < b then a else b
   val x := x.v
   pa x a := a + x.md
@@ -90,19 +98,20 @@ structure MaxAdd where
   md : Int
   deriving Repr, DecidableEq
 
-def maxAddItem : Item MaxAdd Int Int where
+/-- `MaxAdd<T>`; `Default` is `{ v: <T as MinMax>::MIN, md: 0 }` -/
+def maxAddItem (ty : IntTy) : Item MaxAdd Int Int where
   merge l r := ⟨if l.v > r.v then l.v else r.v, 0⟩
   -- the trait's default `update`: `*self = merge(left, right)`
   update _ l r := ⟨if l.v > r.v then l.v else r.v, 0⟩
   modify x m := ⟨x.v + m, x.md + m⟩
   push p l r := (⟨p.v, 0⟩, ⟨l.v + p.md, l.md + p.md⟩, ⟨r.v + p.md, r.md + p.md⟩)
-  dflt := ⟨i64Min, 0⟩
+  dflt := ⟨ty.minVal, 0⟩
   op a b := if a > b then a else b
   val x := x.v
   pa x a := a + x.md
   act m a := a + m
 
-/-- `SumAdd<i64>`: the observable value is `(sum, length)` -/
+/-- `SumAdd<T>`: the observable value is `(sum, length)`; `Default` is all `T::default()` = 0 for every integer type -/
 structure SumAdd where
   v : Int
   len : Int
@@ -137,6 +146,72 @@ def prodItem {T U M A B : Type} (I : Item T M A) (J : Item U M B) : Item (T × U
   val x := (I.val x.1, J.val x.2)
   pa x a := (I.pa x.1 a.1, J.pa x.2 a.2)
   act m a := (I.act m a.1, J.act m a.2)
+
+/-! ### Overflow guard: an item run together with a flag "no machine arithmetic overflowed on the way to this value"
+
+The items above compute over unbounded `Int`; the code computes in the element type `T` with overflow checks on
+(the harness is built with `overflow-checks = true`), and a history on which some `+` / `*` / `+=` leaves `T` is outside
+the property's domain.  `Guard` says which calls stay inside `T` (every intermediate result of the call is
+representable); `guardItem I G` runs `I` unchanged in the first component and keeps the conjunction of all guards that
+contributed to a value in the second.  The flag is sticky (`update` keeps the old node's flag), so a tree in which any
+call ever overflowed contains a `false` flag, and so does every value computed from such a node. -/
+
+structure Guard (T M : Type) where
+  /-- no overflow inside `merge(l, r)` -/
+  okMerge : T → T → Bool
+  /-- no overflow inside `x.modify(m)` -/
+  okModify : T → M → Bool
+  /-- no overflow inside `p.push(l, r)` -/
+  okPush : T → T → T → Bool
+
+def guardItem {T M A : Type} (I : Item T M A) (G : Guard T M) : Item (T × Bool) M A where
+  merge l r := (I.merge l.1 r.1, l.2 && r.2 && G.okMerge l.1 r.1)
+  -- the trait's default `update` = `merge`; an overriding item must not introduce arithmetic of its own
+  update p l r := (I.update p.1 l.1 r.1, p.2 && l.2 && r.2 && G.okMerge l.1 r.1)
+  modify x m := (I.modify x.1 m, x.2 && G.okModify x.1 m)
+  push p l r :=
+    let q := I.push p.1 l.1 r.1
+    let ok := p.2 && G.okPush p.1 l.1 r.1
+    ((q.1, ok), (q.2.1, l.2 && ok), (q.2.2, r.2 && ok))
+  dflt := (I.dflt, true)
+  op := I.op
+  val x := I.val x.1
+  pa x a := I.pa x.1 a
+  act := I.act
+
+/-- every node of the tree satisfies `p` -/
+def Tree.all {T : Type} (p : T → Bool) : Tree T → Bool
+  | .leaf v => p v
+  | .node v l r => p v && l.all p && r.all p
+
+/-- items without arithmetic (`Min`, `Max`: `merge` clones one side) -/
+def noGuard {T M : Type} : Guard T M := ⟨fun _ _ => true, fun _ _ => true, fun _ _ _ => true⟩
+
+/-- `Sum<T>::merge`: `left.v + right.v` -/
+def sumGuard (ty : IntTy) : Guard SumI Unit := ⟨fun l r => ty.fits (l.v + r.v), fun _ _ => true, fun _ _ _ => true⟩
+
+/-- `self.v += m; self.md += m` -/
+def addOk (ty : IntTy) (v md m : Int) : Bool := ty.fits (v + m) && ty.fits (md + m)
+
+/-- `MinAdd<T>`: `merge` has no arithmetic, `modify` two `+=`, `push` = `left.modify(md); right.modify(md)` -/
+def minAddGuard (ty : IntTy) : Guard MinAdd Int :=
+  ⟨fun _ _ => true, fun x m => addOk ty x.v x.md m, fun p l r => addOk ty l.v l.md p.md && addOk ty r.v r.md p.md⟩
+
+def maxAddGuard (ty : IntTy) : Guard MaxAdd Int :=
+  ⟨fun _ _ => true, fun x m => addOk ty x.v x.md m, fun p l r => addOk ty l.v l.md p.md && addOk ty r.v r.md p.md⟩
+
+/-- `self.v + m * self.len` (product first), `self.md + m` -/
+def sumAddOk (ty : IntTy) (x : SumAdd) (m : Int) : Bool :=
+  ty.fits (m * x.len) && ty.fits (x.v + m * x.len) && ty.fits (x.md + m)
+
+def sumAddGuard (ty : IntTy) : Guard SumAdd Int :=
+  ⟨fun l r => ty.fits (l.v + r.v) && ty.fits (l.len + r.len), sumAddOk ty,
+   fun p l r => sumAddOk ty l p.md && sumAddOk ty r p.md⟩
+
+/-- `Combinator<U, V>`: both components -/
+def prodGuard {T U M : Type} (G : Guard T M) (H : Guard U M) : Guard (T × U) M :=
+  ⟨fun l r => G.okMerge l.1 r.1 && H.okMerge l.2 r.2, fun x m => G.okModify x.1 m && H.okModify x.2 m,
+   fun p l r => G.okPush p.1 l.1 r.1 && H.okPush p.2 l.2 r.2⟩
 
 /-! ### `AffHash` (harness item): polynomial hash of the concatenation, affine maps as modifiers -/
 
